@@ -96,6 +96,11 @@ def configs():
                             ns={"http://ex.org/": "ex"}, ex="all")
     _CFG["rdflib"] = dict(kwargs=dict(rdflib_graph=rdflib.Graph().parse(data=g, format="nt"), all_classes_mode=True),
                           ns={"http://ex.org/": "ex"}, ex=None)
+    # one instance of C on another host: no stem for C (the annotation stores None), a stem for D -- a later
+    # shex_graph call with another threshold annotates the shapes again (finding C18-X-minirinone)
+    _CFG["stems"] = dict(kwargs=dict(raw_graph=g.replace("<http://ex.org/a1>", "<http://other.org/z/a1>"),
+                                     all_classes_mode=True, detect_minimal_iri=True),
+                         ns={"http://ex.org/": "ex"}, ex=None)
     _CFG["big"] = dict(kwargs=dict(raw_graph=big_graph(), all_classes_mode=True), ns={"http://ex.org/": "ex"}, ex=None)
     return _CFG
 
@@ -645,7 +650,7 @@ def run(tier, seed, replay=None):
             plan.append((rp["config"], [history_from_json(rp)], "replay"))
     else:
         singles = single_histories()
-        for name in ("small", "ns", "examples", "rdflib"):
+        for name in ("small", "ns", "examples", "rdflib", "stems"):
             plan.append((name, singles, "all histories <= 3 over the 13-op alphabet"))
         pairs = pair_histories()
         for name in ("ns", "rdflib", "examples"):
